@@ -150,6 +150,17 @@ theorem forwarded_needs_line (P : Parsers) (H : List Char → Option (List Char 
   obtain ⟨t, hl, hu, hd, ha, _⟩ := Props.C12Serve.attempted_is_checked_http P lk alive remote _ _ u h
   exact ⟨t, hl, hu, hd, authorized_needs_line H t.scheme schemes r ha⟩
 
+/-! ### Histories -/
+
+/-- Over histories of attempts and reloads of the file *text* on one scheme instance: the verdict on an attempt is
+`fileVerdict` of the text in force — valid logins, failures, repeats and reloads before it do not matter. -/
+theorem file_history_irrelevant (H : List Char → Option (List Char → Bool)) (t1 t2 : List Char) (h1 h2 : List AuthOpF)
+    (c : Option (List Char × List Char)) (hf : fileAfterF t1 h1 = fileAfterF t2 h2) :
+    (runAuthF H t1 (h1 ++ [.attempt c])).getLast? = (runAuthF H t2 (h2 ++ [.attempt c])).getLast? ∧
+    (runAuthF H t1 (h1 ++ [.attempt c])).getLast? = some (fileVerdict H (fileAfterF t1 h1) c) := by
+  rw [runAuthF_append_attempt, runAuthF_append_attempt, hf]
+  simp
+
 /-! ### Non-vacuity -/
 section examples
 set_option maxRecDepth 20000
@@ -177,6 +188,9 @@ example : authorizedFile noHash "basic".toList [("basic".toList, file1)]
     { headers := [(hAuthorization, basicHeader "alice".toList "changed".toList)] } = true := by decide
 example : authorizedFile noHash "basic".toList [("basic".toList, file1)]
     { headers := [(hAuthorization, basicHeader "alice".toList "secret".toList)] } = false := by decide
+example : runAuthF noHash "a:bc\n".toList [.attempt (some ("a".toList, "bc".toList)), .attempt (some ("ab".toList, "c".toList)),
+    .reload "a:bc\na:x\n".toList, .attempt (some ("a".toList, "bc".toList)), .reload [], .attempt (some ("a".toList, "x".toList))]
+    = [true, false, false, false] := by decide
 end examples
 
 end Fabio.Props.C12Htpasswd
